@@ -605,7 +605,7 @@ class Association(threading.Thread):
             # Ensure the reactor is paused so it doesn't
             #   steal incoming ACSE messages
             self._reactor_checkpoint.clear()
-            while not self._is_paused:
+            while not self._is_paused and not self._kill:
                 time.sleep(0.0001)
 
             LOGGER.info("Releasing Association")
@@ -1048,7 +1048,7 @@ class Association(threading.Thread):
 
         # Pause the reactor to prevent a race condition
         self._reactor_checkpoint.clear()
-        while not self._is_paused:
+        while not self._is_paused and not self._kill:
             time.sleep(0.0001)
 
         self.dimse.send_msg(primitive, cast(int, context.context_id))
@@ -1285,7 +1285,7 @@ class Association(threading.Thread):
 
         # Pause the reactor to prevent a race condition
         self._reactor_checkpoint.clear()
-        while not self._is_paused:
+        while not self._is_paused and not self._kill:
             time.sleep(0.0001)
 
         # Send C-FIND request to the peer via DIMSE
@@ -1489,7 +1489,7 @@ class Association(threading.Thread):
 
         # Pause the reactor to prevent a race condition
         self._reactor_checkpoint.clear()
-        while not self._is_paused:
+        while not self._is_paused and not self._kill:
             time.sleep(0.0001)
 
         # Send C-GET request to the peer via DIMSE
@@ -1697,7 +1697,7 @@ class Association(threading.Thread):
 
         # Pause the reactor to prevent a race condition
         self._reactor_checkpoint.clear()
-        while not self._is_paused:
+        while not self._is_paused and not self._kill:
             time.sleep(0.0001)
 
         # Send C-MOVE request to the peer via DIMSE and wait for the response
@@ -1965,7 +1965,7 @@ class Association(threading.Thread):
 
         # Pause the reactor to prevent a race condition
         self._reactor_checkpoint.clear()
-        while not self._is_paused:
+        while not self._is_paused and not self._kill:
             time.sleep(0.0001)
 
         # Send C-STORE request to the peer via DIMSE and wait for the response
@@ -2418,7 +2418,7 @@ class Association(threading.Thread):
 
         # Pause the reactor to prevent a race condition
         self._reactor_checkpoint.clear()
-        while not self._is_paused:
+        while not self._is_paused and not self._kill:
             time.sleep(0.0001)
 
         self.dimse.send_msg(req, cast(int, context.context_id))
@@ -2655,7 +2655,7 @@ class Association(threading.Thread):
 
         # Pause the reactor to prevent a race condition
         self._reactor_checkpoint.clear()
-        while not self._is_paused:
+        while not self._is_paused and not self._kill:
             time.sleep(0.0001)
 
         self.dimse.send_msg(req, cast(int, context.context_id))
@@ -2804,7 +2804,7 @@ class Association(threading.Thread):
 
         # Pause the reactor to prevent a race condition
         self._reactor_checkpoint.clear()
-        while not self._is_paused:
+        while not self._is_paused and not self._kill:
             time.sleep(0.0001)
 
         self.dimse.send_msg(req, cast(int, context.context_id))
@@ -2985,7 +2985,7 @@ class Association(threading.Thread):
 
         # Pause the reactor to prevent a race condition
         self._reactor_checkpoint.clear()
-        while not self._is_paused:
+        while not self._is_paused and not self._kill:
             time.sleep(0.0001)
 
         self.dimse.send_msg(req, cast(int, context.context_id))
@@ -3192,7 +3192,7 @@ class Association(threading.Thread):
 
         # Pause the reactor to prevent a race condition
         self._reactor_checkpoint.clear()
-        while not self._is_paused:
+        while not self._is_paused and not self._kill:
             time.sleep(0.0001)
 
         self.dimse.send_msg(req, cast(int, context.context_id))
@@ -3442,7 +3442,7 @@ class Association(threading.Thread):
 
         # Pause the reactor to prevent a race condition
         self._reactor_checkpoint.clear()
-        while not self._is_paused:
+        while not self._is_paused and not self._kill:
             time.sleep(0.0001)
 
         self.dimse.send_msg(req, cast(int, context.context_id))
